@@ -382,7 +382,14 @@ func genSeqPlan(prop string, seed uint64, tier string) *Plan {
 			add(small(r.Intn(nk)))
 		}
 		add(Op{Kind: "restart", Del: []string{"tree"}, DelSeed: uint32(r.U64())})
-		for j := r.Range(2, 12); j > 0; j-- {
+		mid := r.Range(2, 12)
+		long := r.Bool(1, 3)
+		if long {
+			// several rotated (full) files above the short first one: a pass starting at file 2 or 3 must
+			// rewrite in place, not append below the full file under its range
+			mid = r.Range(10, 30)
+		}
+		for j := mid; j > 0; j-- {
 			k := r.Intn(nk)
 			switch r.Intn(4) {
 			case 0:
@@ -399,7 +406,11 @@ func genSeqPlan(prop string, seed uint64, tier string) *Plan {
 		for j := r.Range(0, 4); j > 0; j-- {
 			add(small(r.Intn(nk)))
 		}
-		add(Op{Kind: "gc", GCBucket: c.Served[r.Intn(len(c.Served))], GCStart: r.Pick(1, 1, 1, 0, -1, 2), GCEnd: r.Pick(-1, -1, 1, 2, 5), GCDays: 0, Merge: r.Bool(1, 2)})
+		gcStart, gcEnd := r.Pick(1, 1, 1, 0, -1, 2), r.Pick(-1, -1, 1, 2, 5)
+		if long {
+			gcStart, gcEnd = r.Pick(2, 2, 3, 1, 4), r.Pick(-1, -1, 2, 3, 5)
+		}
+		add(Op{Kind: "gc", GCBucket: c.Served[r.Intn(len(c.Served))], GCStart: gcStart, GCEnd: gcEnd, GCDays: 0, Merge: r.Bool(1, 2)})
 		for j := r.Range(0, 3); j > 0; j-- {
 			add(small(r.Intn(nk)))
 		}
